@@ -9,6 +9,7 @@ import (
 	"testing"
 
 	"github.com/dolthub/go-mysql-server/vh/internal/fx"
+	"github.com/dolthub/go-mysql-server/vh/internal/kf"
 	"github.com/dolthub/go-mysql-server/vh/internal/stats"
 	"pgregory.net/rapid"
 )
@@ -21,6 +22,9 @@ const (
 	// CEIL/FLOOR of a DECIMAL column round the stored value in place: the row (and, in the
 	// memory backend, the table) holds the rounded value afterwards
 	kfCeilMutates = "C34-ceil-floor-mutate-stored-decimal"
+	// MOD on DECIMALs fails with "division impossible" when the integer quotient has more
+	// digits than both operands
+	kfModImpossible = "C34-mod-division-impossible"
 )
 
 var (
@@ -141,6 +145,30 @@ func TestC34Num(t *testing.T) {
 		al := genDecimal(rt, "a", 6)
 		bl := genDecimal(rt, "b", 4)
 		a, b := rat(al), rat(bl)
+		coefDigits := func(lit string) int {
+			n := len(strings.TrimLeft(strings.NewReplacer("-", "", ".", "").Replace(lit), "0"))
+			if n == 0 {
+				n = 1
+			}
+			return n
+		}
+		modRegion := func() bool {
+			if b.Sign() == 0 {
+				return false
+			}
+			qd := len(new(big.Int).Abs(truncRat(new(big.Rat).Quo(a, b))).String())
+			return qd > max(coefDigits(al), coefDigits(bl))
+		}
+		if excluding(kfModImpossible) && modRegion() {
+			// region of the listed finding: more quotient digits than operand digits
+			st.Excluded(kfModImpossible)
+			bl = strings.Replace(bl, "0.", "7.", 1)
+			b = rat(bl)
+			if modRegion() {
+				bl, b = "7", rat("7")
+			}
+		}
+		inModRegion := modRegion()
 
 		as := &argSet{columns: rapid.IntRange(0, 2).Draw(rt, "columns") == 0}
 		as.add("x", xl, "DECIMAL(40,8)")
@@ -231,7 +259,7 @@ func TestC34Num(t *testing.T) {
 			}
 		}
 		XF := X
-		if as.columns && excluding(kfCeilMutates) {
+		if as.columns && kf.Listed(kfCeilMutates) { // no signature predicate: always excluded by construction while listed
 			// region of the listed finding: FLOOR/CEIL applied to a DECIMAL column value. They get
 			// the literal instead, so that the other identities still see the stored value.
 			st.Excluded(kfCeilMutates)
@@ -313,8 +341,14 @@ func TestC34Num(t *testing.T) {
 		}
 		// ---- MOD -------------------------------------------------------------------------------
 		if b.Sign() != 0 {
-			add("MOD(a,b) = a - b*trunc(a/b)", f("MOD(%s,%s)", A, B), []string{"a", "b"}, wantRat(refMod(a, b)))
-			add("a % b = MOD(a,b)", f("%s %% %s", A, B), []string{"a", "b"}, wantRat(refMod(a, b)))
+			knownMod := func(v any, err error) string {
+				if err != nil && inModRegion && strings.Contains(err.Error(), "division impossible") {
+					return kfModImpossible
+				}
+				return ""
+			}
+			add("MOD(a,b) = a - b*trunc(a/b)", f("MOD(%s,%s)", A, B), []string{"a", "b"}, wantRat(refMod(a, b))).known = knownMod
+			add("a % b = MOD(a,b)", f("%s %% %s", A, B), []string{"a", "b"}, wantRat(refMod(a, b))).known = knownMod
 		} else {
 			add("MOD(a,0) = NULL", f("MOD(%s,%s)", A, B), []string{"a", "b"}, func(v any) string {
 				if v == nil {
